@@ -33,7 +33,7 @@ var c18HTMLTokens = []string{
 	"<map name=m style=\"", "<area shape=rect style='",
 }
 
-var c18CSSTokens = []string{"color", "position", "w\\69 dth", ":", ";", "red", "url(javascript:x)", "/*", "*/", "\"", "'", "@import", "{", "}", "\\", "!important", " ", "&#59 ", "&#x3a;", "(", ")"}
+var c18CSSTokens = []string{"color", "position", "w\\69 dth", ":", ";", "red", "url(javascript:x)", "/*", "*/", "\"", "'", "@import", "{", "}", "\\", "!important", " ", "&#59 ", "&#x3a;", "(", ")", "\\'", "font-family"}
 
 var c18TextTokens = []string{"<", ">", "&", "\"", "http://a.b/c", "www.a.bc/", "(", ")", "\r", "\n", "javascript:x", "a", "'", "<script>"}
 
@@ -460,6 +460,36 @@ func c18Run(c *fw.Ctx) {
 		return "<p style=\"" + html.EscapeString(s) + "\">x</p>"
 	}, c18HTML)
 	c18Enumerate(c, "text", c18TextTokens, fw.Pick(c, 5, 6), func(s string) string { return s }, c18Text)
+	// directed: a forbidden declaration hidden inside the string value of an allow-listed one, the
+	// string containing escaped quotes, escaped backslashes, escaped newlines and comment
+	// delimiters in every combination (what a re-serialising filter has to get right)
+	if c.Shard == 0 {
+		for _, prop := range []string{"color", "font-family", "content"} {
+			for _, q := range []string{"\"", "'"} {
+				for _, e1 := range []string{"\\'", "\\\"", "\\\\", "\\a ", "/*", "*/", ""} {
+					for _, e2 := range []string{"\\'", "\\\"", "\\\\", "*/", ""} {
+						for _, hidden := range []string{"; position: fixed; top: 0; color: ", ";position:fixed;", "} position: fixed; {"} {
+							val := prop + ": " + q + "a" + e1 + hidden + e2 + q + "; width: 1px"
+							cas := c18Case{"css", "<p style=\"" + html.EscapeString(val) + "\">x</p>"}
+							if !c.Begin(func() any { return cas }) {
+								continue
+							}
+							c18HTML(c, cas)
+							c.Nontrivial(1)
+							// and written with the other kind of attribute quotes
+							if q == "\"" {
+								cas2 := c18Case{"css", "<p style='" + strings.ReplaceAll(val, "'", "&#39;") + "'>x</p>"}
+								if c.Begin(func() any { return cas2 }) {
+									c18HTML(c, cas2)
+									c.Nontrivial(1)
+								}
+							}
+						}
+					}
+				}
+			}
+		}
+	}
 	// texts with one very long line (longer than any reader's or scanner's default buffer), before,
 	// after and between every sequence of up to two tokens
 	long := strings.Repeat("a", 70000)
